@@ -859,6 +859,63 @@ def formatting_rules(ctx):
                         {"case": key}, detail={"case": key, "pops": bool(got)})
 
 
+# ---------------------------------------------------------------------------- C01.14 foster parenting applies to table-ish targets only
+def foster_condition(ctx):
+    """With foster parenting enabled, a node is foster-parented only when the target (the current node) is a table, tbody,
+    tfoot, thead or tr element; otherwise it is inserted normally (text inside a fostered <b>, say, goes into that <b>).
+    Decided for TreeBuilder.insertText and insertElementTable over flag x current-node name."""
+    r = ctx.r
+    ce = ctx.ce
+    base = ctx.repo.module("treebuilders/base.py")
+    tset = set(ce.const("constants.py", "tableInsertModeElements"))
+    names = sorted(tset) + ["b", "td", "caption", "html", FRESH]
+    for fname, flags in (("TreeBuilder.insertText", (True, False)), ("TreeBuilder.insertElementTable", (True,))):
+        f = ctx.repo.func("treebuilders/base.py", fname)
+        for flag in flags:
+            for nm in names:
+                def hook(node, local, flag=flag, nm=nm):
+                    t = norm(node)
+                    if t in ("self.insertFromTable", "self._insertFromTable"):
+                        return flag
+                    if t == "self.openElements[-1].name":
+                        return nm
+                    return NotImplemented
+                seen = []
+
+                def stmt_hook(st, out, interp, seen=seen):
+                    if isinstance(st, ast.Assign) and "getTableMisnestedNodePosition" in norm(st.value):
+                        seen.append(st)
+                        for t in st.targets:
+                            for e_ in (t.elts if isinstance(t, ast.Tuple) else [t]):
+                                if isinstance(e_, ast.Name):
+                                    out.env[e_.id] = Opaque(e_.id)
+                        return False
+                    return NotImplemented
+
+                def guard_hook(node, env, interp):
+                    if isinstance(node, ast.Compare) and isinstance(node.comparators[0], ast.Constant) and node.comparators[0].value is None \
+                            and isinstance(env.get(norm(node.left)), Opaque):
+                        return True          # which of the two foster positions is used does not matter here
+                    return NotImplemented
+                interp = MiniInterp(ce, base, expr_hook=hook, stmt_hook=stmt_hook, guard_hook=guard_hook)
+                key = "foster[%s flag=%d current=%s]" % (fname.split(".")[1], flag, "-" if nm == FRESH else nm)
+                try:
+                    env = {p: Opaque(p) for p in f.params()}
+                    if "parent" in env:
+                        env["parent"] = Opaque("parent")
+                    res = interp.run(f.node.body, env)
+                except AnalysisError as e:
+                    r.idiom("C01.14", False, key, f.where, "%s not decidable (%s)" % (fname, str(e)[:80]))
+                    continue
+                fostered = bool(seen)
+                exp = flag and nm in tset
+                r.check("C01.14", fostered == exp, key, f.where,
+                        "%s with foster parenting %s and current node <%s>: the node is %s; the standard %s (only table, tbody, tfoot, "
+                        "thead and tr targets are foster-parented)" % (fname, "on" if flag else "off", nm, "foster-parented" if fostered else
+                                                                     "inserted normally", "foster-parents it" if exp else "inserts it normally"),
+                        {"function": fname, "flag": flag, "current": nm}, detail={"function": fname, "flag": flag, "current": nm, "fostered": fostered})
+
+
 # ---------------------------------------------------------------------------- C01.10 quirks mode
 QUIRKS_EXACT = {"-//w3o//dtd w3 html strict 3.0//en//", "-/w3c/dtd html 4.0 transitional/en", "html"}
 QUIRKS_SYSTEM = "http://www.ibm.com/data/dtd/v11/ibmxhtml1-transitional.dtd"
@@ -1224,6 +1281,7 @@ def run(ctx):
     r.rule("C01.10", "quirks / limited-quirks decision equals the standard's for representative DOCTYPE tokens", floor=500)
     r.rule("C01.11", "a delegation whose result is discarded cannot lose a reprocess request", floor=50)
     r.rule("C01.13", "formatting-list scans stop at markers; stale formatting element removed from both lists; foreign breakout pops to an HTML element or integration point", floor=10)
+    r.rule("C01.14", "foster parenting is applied exactly when it is enabled and the current node is table/tbody/tfoot/thead/tr", floor=25)
     r.rule("C01.12", "insertion-mode transitions: each switch is one the standard's steps for that mode and token make; each required switch is reachable", floor=120)
     r.rule("C01.5", "evaluated element tables equal the transcribed WHATWG sets (entries marked either-way excepted)", floor=300)
     ambient(ctx)
@@ -1238,6 +1296,7 @@ def run(ctx):
     quirks(ctx)
     return_propagation(ctx)
     formatting_rules(ctx)
+    foster_condition(ctx)
     from . import modes
     modes.run(ctx, "C01.12")
     standard_tables(ctx)
